@@ -665,7 +665,7 @@ pub fn explode<O: Lbl, A: Lbl>(p: &POh<O, A>) -> PLax<O, A> {
     let mut q = vec![];
     let mut e = vec![];
     for x in &p.e {
-        let mut copy = |v: usize, w: &mut Vec<O>, q: &mut Vec<(usize, usize)>| -> usize {
+        let copy = |v: usize, w: &mut Vec<O>, q: &mut Vec<(usize, usize)>| -> usize {
             w.push(p.w[v].clone());
             let n = w.len() - 1;
             // alternate the orientation of the pair
